@@ -1,0 +1,34 @@
+//go:build verif
+
+package vm
+
+import (
+	"unsafe"
+
+	"github.com/elk-language/elk/value"
+)
+
+// Verification hook (property C13, second part): error unwinding.  An error with value v thrown in
+// the current frame is caught k call frames further up: drives the real Thread.rethrow.  The frame
+// that catches gets code with one catch entry covering its instruction pointer, the frames below it
+// get code without catch entries; nothing else is prepared.  rethrow leaves the stack trace and the
+// error on the stack of the catching frame.
+func (m *VerifC13) Unwind(k int, v int64) {
+	t := m.t
+	n := t.cfpOffset()
+	if k < 1 || k > n {
+		panic("VerifC13.Unwind: no such frame")
+	}
+	plain := func() (*BytecodeFunction, uintptr) {
+		f := &BytecodeFunction{Instructions: []byte{0, 0, 0}}
+		return f, uintptr(unsafe.Pointer(&f.Instructions[0]))
+	}
+	t.bytecode, t.ip = plain()
+	for i := n - k + 1; i < n; i++ {
+		t.callFrames[i].bytecode, t.callFrames[i].ip = plain()
+	}
+	catcher := &BytecodeFunction{Instructions: []byte{0, 0, 0}, CatchEntries: []*CatchEntry{NewCatchEntry(0, 2, 2, false)}}
+	t.callFrames[n-k].bytecode = catcher
+	t.callFrames[n-k].ip = uintptr(unsafe.Pointer(&catcher.Instructions[1]))
+	t.rethrow(value.SmallInt(v).ToValue(), nil)
+}
